@@ -529,6 +529,12 @@ pub assume_specification<'a> [<String as PartialEq<&'a str>>::eq] (a: &String, b
     ensures r == (a@ == b@);
 pub assume_specification<'a> [<String as PartialEq<&'a str>>::ne] (a: &String, b: &&str) -> (r: bool)
     ensures r == (a@ != b@);
+// [A-as-ref-str] `AsRef<str>::as_ref` (argument conversion of `impl AsRef<str>` parameters): no postcondition, the text is unconstrained
+#[verifier::external_trait_specification]
+pub trait ExAsRef<T: core::marker::PointeeSized>: core::marker::PointeeSized {
+    type ExternalTraitSpecificationFor: core::convert::AsRef<T> + core::marker::PointeeSized;
+    fn as_ref(&self) -> &T;
+}
 // [A-result-unwrap-or] Result::unwrap_or / unwrap_or_default (the default value itself is not specified)
 pub assume_specification<T, E> [std::result::Result::<T, E>::unwrap_or] (res: std::result::Result<T, E>, default: T) -> (r: T)
     ensures r == (match res { Ok(v) => v, Err(_) => default });
@@ -756,6 +762,7 @@ impl From<Salt> for CBOR {
 pub trait RandomNumberGenerator { }
 pub struct SecureRandomNumberGenerator;
 impl RandomNumberGenerator for SecureRandomNumberGenerator { }
+pub mod bc_rand { pub use super::SecureRandomNumberGenerator; pub use super::RandomNumberGenerator; }
 impl Salt {
     pub uninterp spec fn len_spec(&self) -> nat;
     #[verifier::external_body]
